@@ -598,6 +598,10 @@ def standard_flow(ctx, spec):
             ctx.log("setup problem: %s %s" % (n, d[:400]))
         sys.exit(1 if bad else 0)
     ctx.audit(spec["props"])
+    if ctx.tier == "thorough" and os.environ.get("VERIF_NO_COQCHK") != "1" and not ctx.failed_obligations():
+        # independent re-check of the compiled property file and everything it depends on
+        mod = "Verif." + spec["props"][:-2].replace("/", ".")
+        ctx.coqchk([mod], timeout=spec.get("coqchk_timeout", 3000))
     ctx.log("coq: %d obligations, %d failed" % (len(ctx.obligations), len(ctx.failed_obligations())))
     exe = ctx.build_driver()
     casefile = os.path.join(ctx.work, "cases.txt")
